@@ -66,14 +66,14 @@ def parent_key(prog, inst):
     return p[:p.index('::{closure#')]
 
 
-def f_panic(ctx, prog, reach, label):
+def f_panic(ctx, prog, reach, label, overrides=None, rule='F-PANIC'):
     ext_table = jtable('ext_callees.json')
     site_table = jtable('panic_sites.json')
     keys = sorted(reach)
-    sites, done, visited = root_runs(prog, keys, l1.decoder_overrides())
+    sites, done, visited = root_runs(prog, keys, overrides if overrides is not None else l1.decoder_overrides())
     done_paths = set(prog.get(k)['path'] for k in done)
-    ctx.count('F-PANIC.functions', len(keys))
-    ctx.count('F-PANIC.functions_summarised', len(done))
+    ctx.count(rule + '.functions', len(keys))
+    ctx.count(rule + '.functions_summarised', len(done))
     used = {}
     n_sites = 0
     for k in keys:
@@ -88,19 +88,25 @@ def f_panic(ctx, prog, reach, label):
             if s['kind'].startswith('ext:'):
                 row = ext_table.get(s['op'])
                 if row is None:
-                    ctx.violation('F-PANIC.ext', '%s|%s' % (inst['path'], s['op']), 'call of external function %s whose scan says "%s" (%s) and which is not classified in tables/ext_callees.json'
+                    import fnmatch
+                    for pat, r_ in ext_table.items():
+                        if '*' in pat and fnmatch.fnmatchcase(s['op'], pat):
+                            row = r_
+                            break
+                if row is None:
+                    ctx.violation(rule + '.ext', '%s|%s' % (inst['path'], s['op']), 'call of external function %s whose scan says "%s" (%s) and which is not classified in tables/ext_callees.json'
                                   % (s['op'], s['kind'][4:], (s.get('why') or '')[:120]), where)
                     continue
                 if row['class'] != 'panics-if':
-                    ctx.ok('F-PANIC.ext', '%s|%s' % (inst['path'], s['op']), nontrivial=False)
+                    ctx.ok(rule + '.ext', '%s|%s' % (inst['path'], s['op']), nontrivial=False)
                     continue
                 # a precondition call: needs a per-site discharge by the range analysis (check_prim) or a table row
             elif s['kind'] in ('call:diverging', 'call:indirect'):
-                ctx.violation('F-PANIC.diverge', '%s|%s' % (inst['path'], s['op']), '%s reachable from decoding entry points' % s['kind'], where)
+                ctx.violation(rule + '.diverge', '%s|%s' % (inst['path'], s['op']), '%s reachable from decoding entry points' % s['kind'], where)
                 continue
             key = '%s|%s|%s' % (inst['path'], s['kind'], s['op'])
             if rec is not None and rec['ok'] > 0 and rec['open'] == 0 and rec['fail'] == 0 and covered:
-                ctx.ok('F-PANIC', key + '|bb-discharged')
+                ctx.ok(rule, key + '|bb-discharged')
                 continue
             row = site_table.get(key)
             if row is None:
@@ -111,14 +117,14 @@ def f_panic(ctx, prog, reach, label):
                         break
             used[key] = used.get(key, 0) + 1
             if row is not None and used[key] <= row['max']:
-                ctx.ok('F-PANIC.table', key, nontrivial=False)
+                ctx.ok(rule + '.table', key, nontrivial=False)
                 continue
             why = 'not reached by the range analysis' if rec is None else ('operand range does not exclude the failure on %d path(s)' % (rec['open'] + rec['fail']))
             extra = ''
             if row is not None:
                 extra = ' (tables/panic_sites.json allows %d such site(s) in this function, this is number %d)' % (row['max'], used[key])
-            ctx.violation('F-PANIC', key, 'potential panic (%s %s): %s%s' % (s['kind'], s['op'] or '', why, extra), where)
-    ctx.count('F-PANIC.sites', n_sites)
+            ctx.violation(rule, key, 'potential panic (%s %s): %s%s' % (s['kind'], s['op'] or '', why, extra), where)
+    ctx.count(rule + '.sites', n_sites)
     return n_sites
 
 
